@@ -133,3 +133,54 @@ func TestVerifBounded_NumberNotation(t *testing.T) {
 	}
 	fmt.Printf("BOUNDED-OK cases=%d\n", cases)
 }
+
+// Bounded stand-in (C02/C20, signs): the sign of an amount travels through parseAmount (which puts it in front of the
+// number text) into normalizeNumber (whose "integer part all zeros" test must look past it). For every magnitude of a
+// small list, every sign ("", "-", "+") and every place a sign can be written (before the number, between a left-hand
+// symbol and the number, before a left-hand symbol, in a cost) the parsed quantity must be the signed value written.
+func TestVerifBounded_AmountSigns(t *testing.T) {
+	mags := []struct{ text, value string }{{"0.125", "0.125"}, {"0,250", "0.250"}, {"0.5", "0.5"}, {"1.5", "1.5"}, {"12", "12"}, {"0.000", "0"}, {"0,5", "0.5"}, {"1,000.25", "1000.25"}}
+	cases := 0
+	for _, m := range mags {
+		for _, sign := range []string{"", "-", "+"} {
+			want, _ := decimal.NewFromString(m.value)
+			if sign == "-" {
+				want = want.Neg()
+			}
+			forms := []struct {
+				line string
+				cost bool
+			}{
+				{"    a:b  " + sign + m.text + " USD", false},
+				{"    a:b  $" + sign + m.text, false},
+				{"    a:b  " + sign + "$" + m.text, false},
+				{"    a:b  1 AAPL @ " + sign + m.text + " USD", true},
+			}
+			for _, f := range forms {
+				doc := "2024-01-01 x\n" + f.line + "\n    a:c\n"
+				j, errs := Parse(doc)
+				cases++
+				if len(errs) != 0 || len(j.Transactions) != 1 || len(j.Transactions[0].Postings) < 1 {
+					fmt.Printf("BOUNDED-FAIL %q does not parse cleanly: %v\n", f.line, errs)
+					return
+				}
+				p := j.Transactions[0].Postings[0]
+				got := decimal.Zero
+				switch {
+				case f.cost && p.Cost != nil:
+					got = p.Cost.Amount.Quantity
+				case !f.cost && p.Amount != nil:
+					got = p.Amount.Quantity
+				default:
+					fmt.Printf("BOUNDED-FAIL %q: the amount is not recognised\n", f.line)
+					return
+				}
+				if !got.Equal(want) {
+					fmt.Printf("BOUNDED-FAIL %q is read as %s, the amount written is %s\n", f.line, got.String(), want.String())
+					return
+				}
+			}
+		}
+	}
+	fmt.Printf("BOUNDED-OK cases=%d\n", cases)
+}
